@@ -69,6 +69,7 @@ def _explore(out, tier, seed, facts, replay):
             distinct.add((ninp, bool(divide), ax))
             if isinstance(a, tuple) or isinstance(b, tuple) or isinstance(cl, tuple):
                 continue
+            own_obs_range = "obs_range" in ds["cfg"]      # the range masks each file by its OWN observation values: the climatology read as an input then has its own case set
             if not divide:
                 # same cases, and fcst - obs identical (every shift-invariant score then agrees)
                 ea = [f - o for o, f in zip(a[0], a[1])]
@@ -76,11 +77,14 @@ def _explore(out, tier, seed, facts, replay):
                 if not common.close_lists(ea, eb):
                     out.violation("subtract-vs-extra-input", "-c X and X as extra input give different errors for input %d (axis %s slice %d): %r vs %r"
                                   % (k, datagen.AXES[ax], ai, ea[:6], eb[:6]), {"dataset": ds, "request": [k, ax, ai]})
-                # and the anomaly really is value - climatology at the same case
-                if len(a[0]) == len(b[0]) == len(cl[0]) and not (len(a[0]) == 1 and math.isnan(a[0][0])):
+                # and the anomaly really is value - climatology at the same case (not comparable cell by cell when -obsrange masks
+                # the climatology file's OWN observations differently from the verified file's)
+                if len(a[0]) == len(b[0]) == len(cl[0]) and not (len(a[0]) == 1 and math.isnan(a[0][0])) and not own_obs_range:
                     want_o = [o - cc for o, cc in zip(b[0], cl[0])]
                     if not common.close_lists(a[0], want_o):
                         out.violation("anomaly-value", "obs anomaly is not obs - climatology at the same coordinates", {"dataset": ds, "request": [k, ax, ai]})
+            elif len(b[0]) != len(cl[0]) or own_obs_range:
+                pass        # the climatology read as an extra input has cases of its own (e.g. its own observations under -obsrange): no cell-by-cell relation
             else:
                 # division: cases with climatology 0 are dropped for every input; others are value / climatology
                 keep = [i for i, cc in enumerate(cl[0]) if cc != 0]
